@@ -37,9 +37,11 @@ SPEC = dict(
              'first; load_uint(0) raises). c08_src_history: ONE theorem over the whole regenerated alphabet - any interleaving of the eleven copy / '
              'derive methods, store_ref, load_ref, the bit-moving loads / stores (any receivers, any arguments) and the remaining hand-model '
              'transitions keeps Sep / WF / Coh and leaves every cell exactly as it was. (Builder.store_builder does not exist in the library.) '
-             'Cell(bits, refs): c08_src_ctor_step_partial - Cell.get_data_bytes, the only helper of __init__ that touches a bit array, is regenerated and proved to pad a COPY '
-             '(every existing container, list and object untouched); that __init__ stores the two pointers it is given is a check of the source text. '
-             'Still hand model + sampled correspondence: the rest of Cell.__init__ (cellCtor as a whole), the cells of '
+             'Cell(bits, refs) as a whole: c08_src_ctor_step - Cell.__init__ is regenerated at the alias level (the pointer stores are read off the source, every other '
+             'attribute is a cache computed by methods INSPECTED to only read .bits / .refs, except get_data_bytes which is translated and run as a scratch '
+             'call: it pads a COPY) and proved equal to the model step cellCtor: the new cell points at the caller\'s own two containers, nothing else is '
+             'allocated or written; the constructor is part of the alphabet of c08_src_history. '
+             'Still hand model + sampled correspondence: the VALUE part of the constructor (construct = C01/C02\'s tie), the cells of '
              'Boc.deserialize, hash / to_boc, composite parsers. '
              'TYPED STORES / LOADS (c08_src_typed_ops_own_containers, Properties/C08Typed.lean): every store_* of Generated/BuilderOps.lean (18 methods) only '
              'appends to the builder\'s own bit array / list - partial writes of a raising call included - and every load_* / preload_* / skip_bits of '
@@ -1680,6 +1682,8 @@ SRC_BITS_HISTS = {
     'load_uint': [['dv:1:begin_parse', 'lu:5:2', 'lu:5:1', 'lu:5:5', 'ob:1:hash', 'dv:5:to_cell'], ['dv:0:begin_parse', 'lu:5:3', 'lu:5:1']],
     'preload_uint': [['dv:1:begin_parse', 'lu:5:2', 'lu:5:1', 'ob:1:hash', 'dv:5:to_cell']],
     # Cell.get_data_bytes (the constructor's helper): cells built from the caller's own plain / Tvm arrays, then observed
+    '__init__': [['nb:10110:p', 'nr:-', 'ct:5:6:-1', 'ob:7:hash'], ['nb:1:t', 'nr:0.1', 'ct:5:6:-1', 'ct:5:6:-1', 'ob:7:hash', 'dv:7:begin_parse', 'lr:9', 'ob:8:hash'],
+                 ['nb:10110101:p', 'nr:0', 'ct:5:6:-1', 'dv:7:to_builder', 'sr:8:1', 'ob:7:hash']],
     'get_data_bytes': [['nb:10110:p', 'nr:-', 'ct:5:6:-1', 'ob:7:hash'], ['nb:1:t', 'nr:0', 'ct:5:6:-1', 'ct:5:6:-1', 'ob:7:hash', 'dv:7:begin_parse'],
                        ['nb:10110101:p', 'nr:-', 'ct:5:6:-1']],
 }
